@@ -1,7 +1,7 @@
 /* Contracts for DataSet<int> (C19, C06 renumbering clause).
  *
- * C view of the representation (see unit.cpp):  item[2i]=data, item[2i+1]=info of cell i;  key[2g+1]=idx of the
- * key of element number g;  scalars themax, *thesize, *thenum, *firstfree.
+ * C view of the representation (see unit.cpp): one 64-bit cell per struct:  item[i] = {low half: data, high half: info} of
+ * cell i;  key[g] = {low: info, high: idx} of the key of element number g;  scalars themax, *thesize, *thenum, *firstfree.
  *
  * REPRESENTATION INVARIANT  INV = S & K & U & R0..R5, each conjunct stated at a cell/number:
  *   S     0 <= thenum <= thesize <= themax
